@@ -81,7 +81,9 @@ Inductive cache_ev :=
 | EvNode (nid : positive) (alloc : res)     (* node add / update with this allocatable *)
 | EvTerminating (tid : positive)            (* pod update: deletionTimestamp set *)
 | EvDelete (tid : positive)                 (* pod deleted *)
-| EvPodAdd (t : task).                      (* a pod arrives (possibly before its node) *)
+| EvPodAdd (t : task)                       (* a pod arrives (possibly before its node) *)
+| EvUpdateUnbound (tid : positive)          (* pod update / resync whose object still has no nodeName *)
+| EvBoundArrives (tid : positive).          (* the update that shows the pod bound where the cache bound it *)
 
 Definition node_set_acc (n : node) (t : task) : node :=
   let r := t_req t in
@@ -157,7 +159,47 @@ Definition cache_event (c : cache) (e : cache_ev) : cache :=
              | Some j => <[t_job t := job_add j t]> (c_jobs c)
              | None => c_jobs c end)
             (add_to_node (c_nodes c) t)
+  | EvUpdateUnbound tid =>
+    (* updatePod 357-362: "ignore the update event if pod is allocated in cache but not present
+       in NodeName" -- whatever changed in the object, whether or not the resourceVersion did.
+       This is what keeps the reservation of a bind in flight. *)
+    match c_heap c !! tid with
+    | None => c
+    | Some st =>
+      if allocated_status (t_status st) then c
+      else
+        let t' := set_node (set_status st Pending) None in
+        mkCache (<[tid := t']> (c_heap c))
+                (match c_jobs c !! t_job st with
+                 | Some j => <[t_job st := job_add (job_del j st) t']> (c_jobs c)
+                 | None => c_jobs c end)
+                (remove_from_node (c_nodes c) st)
+    end
+  | EvBoundArrives tid =>
+    match c_heap c !! tid with
+    | None => c
+    | Some st =>
+      match t_status st, t_node st with
+      | Binding, Some i =>
+        let t' := set_status st Bound in
+        mkCache (<[tid := t']> (c_heap c))
+                (match c_jobs c !! t_job st with
+                 | Some j => <[t_job st := job_add (job_del j st) t']> (c_jobs c)
+                 | None => c_jobs c end)
+                (add_to_node (remove_from_node (c_nodes c) st) t')
+      | _, _ => c      (* the harness delivers this event only for a bind the cache accepted *)
+      end
+    end
   end.
+
+(* the node (smallest id) on which a task is held as Binding *)
+Definition find_binding (ns : gmap positive node) (tid : positive) : option positive :=
+  map_fold (fun i n acc =>
+      match n_tasks n !! tid with
+      | Some c => if bool_decide (t_status c = Binding)
+                  then Some (match acc with Some a => Pos.min a i | None => i end) else acc
+      | None => acc
+      end) None ns.
 
 (* the agent scheduler keeps no job index: the same events on its nodes; [tasks] is what the
    informer knows of the pod (its TaskInfo is rebuilt from the pod on every event) *)
@@ -170,6 +212,17 @@ Definition agent_event (tasks : positive -> option task) (ns : gmap positive nod
     | None => ns end
   | EvDelete tid => match tasks tid with Some st => remove_from_node ns st | None => ns end
   | EvPodAdd t => add_to_node ns t
+  (* the agent's guard reads the status of the POD (agentscheduler event_handlers.go 93-97), which is
+     Pending for an unbound pod: it never fires; deletePod / addPod then look for the pod's own
+     nodeName, which is empty: nothing happens to the nodes *)
+  | EvUpdateUnbound _ => ns
+  (* the bound pod arrives: deletePod(old) finds no nodeName, addPod(new) is refused because the
+     Binding copy is still there ("already on node") *)
+  | EvBoundArrives tid =>
+    match tasks tid, find_binding ns tid with
+    | Some st, Some i => add_to_node ns (set_node (set_status st Bound) (Some i))
+    | _, _ => ns
+    end
   end.
 
 Inductive cache_op := OpBind (r : bind_req) | OpEv (e : cache_ev).
